@@ -143,10 +143,23 @@ func c01isolate(f func()) string {
 		completed = true
 	}()
 	var out string
-	select {
-	case out = <-done:
-	case <-time.After(60 * time.Second):
-		return "hang: no result after 60 s"
+	// Hang watchdog. The machine is shared and may be heavily loaded, so wall time alone proves
+	// nothing: a spinning loop is recognised by the CPU time the process burns (GOMAXPROCS=1: the
+	// process does nothing else), a deadlock only by a very generous wall bound.
+	cpu0, wall0 := c01cpu(), time.Now()
+wait:
+	for {
+		select {
+		case out = <-done:
+			break wait
+		case <-time.After(5 * time.Second):
+			if c01cpu()-cpu0 > 120*time.Second {
+				return "hang: no result after 120 s of CPU time"
+			}
+			if time.Since(wall0) > 45*time.Minute {
+				return "hang: no result after 45 min"
+			}
+		}
 	}
 	if m, ok := c01drainSig(); ok || out == "goexit" {
 		return "fatal: " + m
@@ -834,7 +847,8 @@ func c01parseChunks(c c01case, chunks []c01chunk, withQual bool) (obs []c01obs, 
 }
 
 type c01ctx struct {
-	r *verifkit.Result
+	r      *verifkit.Result
+	replay bool // replaying one stored case: only its with_quality setting is parsed
 }
 
 func (x *c01ctx) report(c c01case, vs []c01viol) {
@@ -887,7 +901,7 @@ func (x *c01ctx) evalE1(c c01case, f c01file, payload []byte, ref []c01chunk, ha
 	if c.Fmt == "fastq" {
 		quals = []bool{true, false}
 	}
-	if c.Part == "replay" {
+	if x.replay {
 		quals = []bool{c.WithQual}
 	}
 	for _, wq := range quals {
@@ -926,7 +940,11 @@ func (x *c01ctx) sweep(c c01case, f c01file, transports []string) {
 			payloads[t] = f.data
 		}
 	}
+	gzipSubset := !verifkit.Thorough() // pgzip allocates several MiB per reader: quick tier sweeps a subset of the sizes
 	for b := 2; b <= n+1; b++ {
+		if len(transports) == 1 && transports[0] == "gzip" && gzipSubset && !(b <= 64 || b%8 == 0 || b >= n) {
+			continue
+		}
 		c.Buf = b
 		c.Transport = "whole"
 		c.Split = 0
@@ -1171,7 +1189,7 @@ func TestVerifC01(t *testing.T) {
 		switch c.Part {
 		case "e1":
 			f := c01build(c)
-			c.Part = "replay"
+			x.replay = true
 			payload := f.data
 			switch c.Transport {
 			case "gzip", "bzip2", "xz", "zstd":
@@ -1227,6 +1245,7 @@ func TestVerifC01(t *testing.T) {
 	type plan struct {
 		v      c01case
 		shapes []int
+		full   bool
 	}
 	variants := func(f string) []c01case {
 		vs := []c01case{{Fmt: f}, {Fmt: f, CRLF: true}}
@@ -1238,9 +1257,9 @@ func TestVerifC01(t *testing.T) {
 	mainPlans := map[string][]plan{}
 	for _, f := range formats {
 		for _, v := range variants(f) {
-			mainPlans[f] = append(mainPlans[f], plan{v, quick[f]})
+			mainPlans[f] = append(mainPlans[f], plan{v, quick[f], false})
 			if thorough && !v.RelHdr {
-				mainPlans[f] = append(mainPlans[f], plan{v, full[f]})
+				mainPlans[f] = append(mainPlans[f], plan{v, full[f], true})
 			}
 		}
 	}
@@ -1258,6 +1277,14 @@ func TestVerifC01(t *testing.T) {
 	r.Bound("transports_main", "whole, byte-by-byte")
 	r.Bound("transports_reduced", "every 2-piece split, Buf(plain), gzip, bzip2, xz, zstd through Buf")
 
+	if r.Shard == 0 {
+		r.Sample(c01case{Part: "e1", Fmt: "fastq", Shapes: quick["fastq"][:3], Transport: "whole", Buf: 17, WithQual: true})
+		r.Sample(string(c01build(c01case{Fmt: "fastq", Shapes: quick["fastq"][1:4]}).data))
+		r.Sample(string(c01build(c01case{Fmt: "embl", Shapes: []int{3}}).data))
+	}
+	r.RequireNonVacuous("runs_with_2+_chunks")
+	r.RequireNonVacuous("runs_buffer_smaller_than_smallest_record")
+
 	k := 0
 	only := os.Getenv("C01_ONLY") // development aid: restrict to one phase, e.g. "main:genbank" (never set by ./check)
 	want := func(phase, f string) bool {
@@ -1266,47 +1293,60 @@ func TestVerifC01(t *testing.T) {
 
 	// ---- E1 main corpus: whole + byte-by-byte, every buffer size
 	seenFile := map[string]bool{}
-	for _, f := range formats {
-		if !want("main", f) {
-			continue
-		}
-		for _, pl := range mainPlans[f] {
-			for _, nrec := range []int{1, 3} {
-				stop := false
-				c01tuples(pl.shapes, nrec, func(tp []int) {
+	runMain := func(fullProduct bool) (stop bool) {
+		for _, f := range formats {
+			if !want("main", f) {
+				continue
+			}
+			for _, pl := range mainPlans[f] {
+				if pl.full != fullProduct {
+					continue
+				}
+				for _, nrec := range []int{1, 3} {
+					c01tuples(pl.shapes, nrec, func(tp []int) {
+						if stop {
+							return
+						}
+						c := pl.v
+						c.Part, c.Shapes = "e1", tp
+						id := fmt.Sprintf("%s|%v|%v|%v", f, c.CRLF, c.RelHdr, tp)
+						if seenFile[id] {
+							return // the quick set is a subset of the full set
+						}
+						seenFile[id] = true
+						mine := r.Mine(k)
+						k++
+						if !mine {
+							return
+						}
+						if r.Expired() {
+							stop = true
+							return
+						}
+						file := c01build(c)
+						fh := fnv.New64a()
+						fh.Write(file.data)
+						r.State(fmt.Sprintf("file|%x", fh.Sum64()))
+						r.Count("files_"+f, 1)
+						t0 := c01cpu()
+						x.sweep(c, file, []string{"whole", "bytes"})
+						r.Count("cpu_ms_main_"+f, c01cpuSince(t0))
+					})
 					if stop {
 						return
 					}
-					c := pl.v
-					c.Part, c.Shapes = "e1", tp
-					id := fmt.Sprintf("%s|%v|%v|%v", f, c.CRLF, c.RelHdr, tp)
-					if seenFile[id] {
-						return // the quick set is a subset of the full set
-					}
-					seenFile[id] = true
-					mine := r.Mine(k)
-					k++
-					if !mine {
-						return
-					}
-					if r.Expired() {
-						stop = true
-						return
-					}
-					file := c01build(c)
-					fh := fnv.New64a()
-					fh.Write(file.data)
-					r.State(fmt.Sprintf("file|%x", fh.Sum64()))
-					r.Count("files_"+f, 1)
-					t0 := c01cpu()
-					x.sweep(c, file, []string{"whole", "bytes"})
-					r.Count("cpu_ms_main_"+f, c01cpuSince(t0))
-				})
-				if stop {
-					return
 				}
 			}
 		}
+		return
+	}
+	// the quick shape sets first (in the thorough tier the full products come last, so that a run cut
+	// short by its deadline has still covered everything the quick tier covers)
+	if runMain(false) {
+		return
+	}
+	if thorough {
+		defer runMain(true)
 	}
 
 	// ---- E1 reduced corpus: every 2-piece split and the compressed transports; pipeline
@@ -1332,8 +1372,8 @@ func TestVerifC01(t *testing.T) {
 					return file
 				}
 				for _, tr := range []string{"split", "buf", "gzip", "bzip2", "xz", "zstd"} {
-					if tr == "split" && (f == "genbank" || f == "embl") && (c.CRLF || c.RelHdr) {
-						continue // n^2 runs per file: flat files in the LF variant only
+					if tr == "split" && (f == "genbank" || f == "embl") {
+						continue // n^2 runs per file: flat files get 2-record files (below)
 					}
 					mine := r.Mine(k)
 					k++
@@ -1361,6 +1401,9 @@ func TestVerifC01(t *testing.T) {
 								continue // format sniffing of a CRLF release header is outside the statement
 							}
 							for _, w := range []int{1, 2, 3} {
+								if !thorough && !((rdr == "universal" && w == 2) || (rdr == "format" && w != 2 && (ext == "" || ext == ".gz"))) {
+									continue
+								}
 								pc := c
 								pc.Part, pc.Reader, pc.Ext, pc.Workers, pc.WithQual = "pipe", rdr, ext, w, true
 								x.evalPipe(pc, get())
@@ -1368,6 +1411,43 @@ func TestVerifC01(t *testing.T) {
 						}
 					}
 				}
+			})
+			if stop {
+				return
+			}
+		}
+	}
+
+	// ---- every 2-piece split x every buffer size on 2-record flat files
+	for _, f := range []string{"genbank", "embl"} {
+		if !want("reduced", f) {
+			continue
+		}
+		vs := variants(f)
+		if !thorough {
+			vs = vs[:1]
+		}
+		for _, v := range vs {
+			stop := false
+			c01tuples(reduced[f], 2, func(tp []int) {
+				if stop {
+					return
+				}
+				mine := r.Mine(k)
+				k++
+				if !mine {
+					return
+				}
+				if r.Expired() {
+					stop = true
+					return
+				}
+				c := v
+				c.Part, c.Shapes = "e1", tp
+				r.Count("reduced_file_transport_split", 1)
+				t0 := c01cpu()
+				x.sweep(c, c01build(c), []string{"split"})
+				r.Count("cpu_ms_reduced_split_"+f, c01cpuSince(t0))
 			})
 			if stop {
 				return
@@ -1416,7 +1496,11 @@ func TestVerifC01(t *testing.T) {
 		}
 		for _, crlf := range []bool{false, true} {
 			stop := false
-			c01tuples(reduced[f], 3, func(tp []int) {
+			sweepShapes := reduced[f]
+			if !thorough {
+				sweepShapes = sweepShapes[1:]
+			}
+			c01tuples(sweepShapes, 3, func(tp []int) {
 				if stop {
 					return
 				}
@@ -1476,6 +1560,9 @@ func TestVerifC01(t *testing.T) {
 					if rdr == "kseq" && w != 1 {
 						continue
 					}
+					if !thorough && ((rdr == "format" && w == 2) || (rdr == "universal" && (w != 2 || ext != ""))) {
+						continue
+					}
 					mine := r.Mine(k)
 					k++
 					if !mine {
@@ -1498,11 +1585,4 @@ func TestVerifC01(t *testing.T) {
 		}
 	}
 
-	if r.Shard == 0 {
-		r.Sample(c01case{Part: "e1", Fmt: "fastq", Shapes: quick["fastq"][:3], Transport: "whole", Buf: 17, WithQual: true})
-		r.Sample(string(c01build(c01case{Fmt: "fastq", Shapes: quick["fastq"][1:4]}).data))
-		r.Sample(string(c01build(c01case{Fmt: "embl", Shapes: []int{3}}).data))
-	}
-	r.RequireNonVacuous("runs_with_2+_chunks")
-	r.RequireNonVacuous("runs_buffer_smaller_than_smallest_record")
 }
